@@ -35,6 +35,7 @@ from .introspect import (
     _ScopedVisitor,
     _attribute_chain,
     _referenced_callable,
+    _resolve_body_imports,
 )
 from .structures import (
     FunctionArgContext,
@@ -177,6 +178,7 @@ class InspectFunctionIndirect(object):
         call_stack: List[CanonicalPath],
     ) -> FunctionIndirectInteractions:
         body: Sequence[ast.AST]
+        _resolve_body_imports(node, mod, gctx)
         if isinstance(node, ast.FunctionDef):
             body = node.body
         elif isinstance(node, ast.Lambda):
